@@ -532,6 +532,60 @@ static void huge_fill(uint8_t *p, size_t n, uint64_t seed)
     for (; i < n; ++i) p[i] = (uint8_t)(i * 131 + seed);
 }
 
+/* bytes [off, off + n) of what huge_fill(p, total, seed) writes (off a multiple of 8) */
+static void huge_chunk(uint8_t *dst, size_t off, size_t n, size_t total, uint64_t seed)
+{
+    size_t i;
+    for (i = 0; i < n; ) {
+        size_t pos = off + i;
+        if (pos + 8 <= total - total % 8 && i + 8 <= n) { uint64_t v = seed + (uint64_t)(pos / 8 + 1) * 0x9E3779B97F4A7C15ULL; v ^= v >> 29; memcpy(dst + i, &v, 8); i += 8; }
+        else if (pos + 8 <= total - total % 8) { uint64_t v = seed + (uint64_t)(pos / 8 + 1) * 0x9E3779B97F4A7C15ULL; uint8_t t[8]; v ^= v >> 29; memcpy(t, &v, 8); memcpy(dst + i, t, n - i); i = n; }
+        else { dst[i] = (uint8_t)(pos * 131 + seed); ++i; }
+    }
+}
+
+/* exact oracle for a multi-GiB packet: the streaming model (32-steps-per-iteration permutation, pinned to the literal
+ * one at start) regenerates the plaintext chunk by chunk and compares its ciphertext with what the library wrote */
+static void huge_exact(const args_t *a, const variant_t *v, const uint8_t *pkt, size_t mlen, uint64_t fillseed,
+                       const uint8_t *ad, size_t adlen, const uint8_t *n, const uint8_t *k)
+{
+    enum { CH = 1 << 20 };
+    uint8_t *pm = (uint8_t *)malloc(CH), *cm = (uint8_t *)malloc(CH), tag[8], n2[12];
+    int vi = (int)(v - VARS), ks = vi % 3 == 0 ? 16 : vi % 3 == 1 ? 24 : 32;
+    m_stream_t st;
+    size_t off, bad = (size_t)-1;
+    char key[96];
+    (void)a;
+    if (m_use_fast_perm(1)) { fprintf(stderr, "fast permutation disagrees with the literal model\n"); exit(2); }
+    if (vi < 3) {
+        m_stream_begin(&st, ks, k, n, 0x10, ad, adlen);
+        for (off = 0; off < mlen; off += CH) {
+            size_t l = mlen - off < CH ? mlen - off : CH;
+            huge_chunk(pm, off, l, mlen, fillseed);
+            m_stream_aead_encrypt(&st, cm, pm, l);
+            if (bad == (size_t)-1 && memcmp(cm, pkt + off, l)) { size_t j; for (j = 0; j < l && cm[j] == pkt[off + j]; ++j) { } bad = off + j; }
+        }
+        m_stream_tag(&st, tag);
+    } else {
+        m_stream_begin(&st, ks, k, n, 0x90, ad, adlen);
+        for (off = 0; off < mlen; off += CH) { size_t l = mlen - off < CH ? mlen - off : CH; huge_chunk(pm, off, l, mlen, fillseed); m_stream_absorb_msg(&st, pm, l); }
+        m_stream_tag(&st, tag);
+        memcpy(n2, n, 4); memcpy(n2 + 4, tag, 8);
+        m_stream_begin(&st, ks, k, n2, 0xB0, NULL, 1);
+        for (off = 0; off < mlen; off += CH) {
+            size_t l = mlen - off < CH ? mlen - off : CH;
+            huge_chunk(pm, off, l, mlen, fillseed);
+            m_stream_keystream_xor(&st, cm, pm, l);
+            if (bad == (size_t)-1 && memcmp(cm, pkt + off, l)) { size_t j; for (j = 0; j < l && cm[j] == pkt[off + j]; ++j) { } bad = off + j; }
+        }
+    }
+    m_use_fast_perm(0);
+    n_bytes_cmp += mlen + 8;
+    if (bad != (size_t)-1) { snprintf(key, sizeof key, "spec-mismatch:%s:huge-body", v->name); emit_viol(key, "ciphertext byte %zu of a %zu byte message differs from the streaming model", bad, mlen); }
+    if (memcmp(tag, pkt + mlen, 8)) { snprintf(key, sizeof key, "spec-mismatch:%s:huge-tag", v->name); emit_viol(key, "tag of a %zu byte message differs from the streaming model", mlen); }
+    free(pm); free(cm);
+}
+
 /* AD of 2^32 + 7 bytes: no model can be afforded, but a length that is truncated modulo 2^32 (or any narrower
  * counter) makes the packet equal to the one for the truncated length, and makes bytes beyond the truncated length
  * irrelevant.  Both are checked; neither can happen for a conforming implementation except with probability 2^-64. */
@@ -620,6 +674,7 @@ static void huge_msg_case(const args_t *a, long idx, const variant_t *v, size_t 
     if (clen != mlen + 8) { snprintf(key, sizeof key, "clen-wrong:%s", v->name); emit_viol(key, "*clen=%zu for mlen=%zu", clen, mlen); }
     for (i = 8; i < 64; ++i) if (buf[mlen + i] != 0xAB) { snprintf(key, sizeof key, "encrypt-wrote-outside:%s", v->name); emit_viol(key, "byte %zu after the packet was modified", i); break; }
     if (!memcmp(probe, buf + mlen - 40, 40)) { snprintf(key, sizeof key, "length-truncated:%s:mlen", v->name); emit_viol(key, "the last 40 bytes of a %zu byte message were not encrypted", mlen); }
+    huge_exact(a, v, buf, mlen, a->seed * 7 + (uint64_t)idx, ad, 3, n, k);
     rc = v->dec(buf, &ml2, buf, mlen + 8, ad, 3, n, k); ++n_dec;
     if (rc != 0 || ml2 != mlen) { snprintf(key, sizeof key, "roundtrip-rejected:%s:huge-message", v->name); emit_viol(key, "decrypt(encrypt(m)) returned %d, *mlen=%zu for mlen=%zu", rc, ml2, mlen); }
     else {
@@ -632,6 +687,35 @@ static void huge_msg_case(const args_t *a, long idx, const variant_t *v, size_t 
         munmap(ref, 1 << 20);
         n_bytes_cmp += mlen;
         if (bad) { snprintf(key, sizeof key, "roundtrip-plaintext:%s:huge-message", v->name); emit_viol(key, "%zu words of the recovered %zu byte plaintext differ, first near offset %zu", bad, mlen, i); }
+    }
+    munmap(buf, mlen + 64);
+}
+
+/* forged packet with a body of 2^32 + 16 bytes (one bit flipped beyond offset 2^32), opened in place: must be
+ * rejected and every one of the 2^32 + 16 plaintext bytes must be zero afterwards */
+static void huge_reject_case(const args_t *a, long idx, const variant_t *v, size_t mlen)
+{
+    size_t clen = 0, ml2 = 0, i, nz = 0, first = 0;
+    uint8_t *buf = huge_map(mlen + 64), k[32], n[12], ad[8];
+    rng_t r = rng_for(a->seed, 0x4064, (uint64_t)idx);
+    char key[96];
+    int rc;
+    set_case("{\"h\":\"aead\",\"mode\":\"huge-reject\",\"v\":\"%s\",\"i\":%ld,\"adlen\":2,\"mlen\":%zu,\"alias\":\"in place\",\"flipped\":\"body byte mlen-9\"}", v->name, idx, mlen);
+    ++n_cases; ++n_long; ++n_inplace;
+    cls_add(mix64(0x4064, (uint64_t)(v - VARS) + (mlen >> 31) * 8));
+    emit_sample();
+    fill_random(&r, k, 32); fill_random(&r, n, 12); fill_random(&r, ad, 8);
+    huge_fill(buf, mlen, a->seed * 11 + (uint64_t)idx);
+    v->enc(buf, &clen, buf, mlen, ad, 2, n, k); ++n_enc;
+    buf[mlen - 9] ^= 0x04;
+    rc = v->dec(buf, &ml2, buf, mlen + 8, ad, 2, n, k); ++n_dec; ++n_verdict_rej;
+    if (rc == 0) { snprintf(key, sizeof key, "accept-forged:%s:huge-body", v->name); emit_viol(key, "a %zu byte packet with one body bit flipped near its end was accepted", mlen + 8); }
+    else {
+        const uint64_t *w = (const uint64_t *)buf;
+        for (i = 0; i < mlen / 8; ++i) if (w[i]) { if (!nz) first = i * 8; ++nz; }
+        for (i = mlen - mlen % 8; i < mlen; ++i) if (buf[i]) { if (!nz) first = i; ++nz; }
+        n_bytes_cmp += mlen;
+        if (nz) { snprintf(key, sizeof key, "plaintext-not-zeroed:%s:huge", v->name); emit_viol(key, "rejected %zu byte packet: %zu words of the plaintext buffer are not zero, first at offset %zu", mlen + 8, nz, first); }
     }
     munmap(buf, mlen + 64);
 }
@@ -908,10 +992,18 @@ int main(int argc, char **argv)
         for (vi = v0; vi < v0 + nv; ++vi, ++idx) if (mine(&a, idx)) huge_tamper_case(&a, idx, &VARS[vi]);
         NL = 0; W = -1;
     }
+    if (strstr(a.mode, "hugereject")) {
+        int sh = a.p3 > 0 ? (int)a.p3 : 32;
+        for (vi = v0; vi < v0 + 3; ++vi, ++idx) if (mine(&a, idx)) huge_reject_case(&a, idx, &VARS[vi], ((size_t)1 << sh) + 16);
+        NL = 0; W = -1;
+    }
     if (strstr(a.mode, "hugemsg")) {
         int li;
         for (li = 0; li < 2; ++li)
-            for (vi = v0; vi < v0 + 3; ++vi, ++idx) if (mine(&a, idx)) huge_msg_case(&a, idx, &VARS[vi], li ? ((size_t)1 << 31) + 3 : ((size_t)1 << 32) + 5);
+            for (vi = v0; vi < v0 + 3; ++vi, ++idx) {
+                int sh = a.p3 > 0 ? (int)a.p3 : 32;        /* --p3 N scales the case down to 2^N (used to exercise this path in seconds) */
+                if (mine(&a, idx)) huge_msg_case(&a, idx, &VARS[vi], li ? ((size_t)1 << (sh - 1)) + 3 : ((size_t)1 << sh) + 5);
+            }
         NL = 0; W = -1;
     }
     if (strstr(a.mode, "sweep")) {
